@@ -38,6 +38,7 @@ type scen struct {
 	Kind      string `json:"kind"`
 	Reason    bool   `json:"reason"` // local close carries a reason (close frame is sent)
 	React     bool   `json:"react"`  // the reader reacts to a reported error with CloseDataConnection, as ship.ShipConnection does
+	Serial    bool   `json:"serial,omitempty"` // the reader handles a reported error under the lock its own writers hold while they write, as ship.ShipConnection does (sync.Once around CloseConnection: a graceful close writes its announce inside it, the close caused by ReportConnectionError waits for it)
 	Code      int    `json:"code"`   // peer close code
 	Writers   int    `json:"writers"`
 	Per       int    `json:"per"`
@@ -83,6 +84,8 @@ type reader struct {
 	mu        sync.Mutex
 	sut       *ws.WebsocketConnection
 	react     bool
+	serial    bool
+	wmu       sync.Mutex // held by a writer around its write call when serial
 	events    []int
 	delivered []int
 	holdDeliv chan struct{} // when set: the first delivery waits here (C13 in-flight witness)
@@ -101,6 +104,10 @@ func (r *reader) HandleIncomingWebsocketMessage(b []byte) {
 }
 
 func (r *reader) ReportConnectionError(err error) {
+	if r.serial {
+		r.wmu.Lock()
+		r.wmu.Unlock() //nolint:staticcheck // wait for a write call in progress, as the Once does
+	}
 	closed, cerr := r.sut.IsDataConnectionClosed()
 	ev := 2
 	if closed && cerr != nil && err != nil {
@@ -263,7 +270,7 @@ func runScen(sc scen) (res result) {
 		defer logging.SetLogging(&logging.NoLogging{})
 	}
 	sut := ws.NewWebsocketConnection(sutConn, "verif")
-	rd := &reader{sut: sut, react: sc.React}
+	rd := &reader{sut: sut, react: sc.React, serial: sc.Serial}
 	fc.armed.Store(true)
 	sut.InitDataProcessing(rd)
 
@@ -287,6 +294,10 @@ func runScen(sc scen) (res result) {
 					c.Res = 2
 				}
 			}()
+			if sc.Serial {
+				rd.wmu.Lock()
+				defer rd.wmu.Unlock()
+			}
 			if e := sut.WriteMessageToWebsocketConnection(payload(g, i)); e != nil {
 				c.Res = 1
 			} else {
